@@ -387,7 +387,7 @@ Fixpoint g_valid (o : popts) (g : gobj) : bool :=
   | JPoly rings _ => forallb (forallb (fpt_valid o)) rings
   | JFeature b _ => g_valid o b
   | JColl _ cs _ => forallb (g_valid o) cs
-  | JCircle _ _ => true         (* the polygon approximation: outside this model *)
+  | JCircle c _ => fpt_valid o c     (* the Point it was recognised from (its polygon approximation is outside this model) *)
   end.
 
 (* gjson Result.String() of a member value *)
